@@ -201,7 +201,16 @@ fn rand_fx(r: &mut Rng) -> FXRates {
         FXRate::try_new(a, b, num, settle).unwrap()
     }).collect();
     let base = if r.coin() { Some(Ccy::try_new(*r.pick(&cs)).unwrap()) } else { None };
-    let mut f = FXRates::try_new(quotes, base).unwrap();
+    let mut f = FXRates::try_new(quotes.clone(), base).unwrap();
+    // half of the markets have LIVED before they are stored: one or two of their quotes were updated (what is stored must be
+    // the market as it now is, not as it was made)
+    if r.coin() {
+        for _ in 0..(1 + r.below(2)) {
+            let q = r.pick(&quotes).clone();
+            let (l, rr, _, st) = rateslib::verif::rates_py::quote_view(&q).map(|(p, n, a, s)| (p[..3].to_string(), p[3..].to_string(), (n, a), s)).unwrap();
+            let _ = f.update(vec![FXRate::try_new(&l, &rr, Number::F64(rand_pos(r)), st).unwrap()]);
+        }
+    }
     let _ = f.set_ad_order(match r.below(3) { 0 => ADOrder::Zero, 1 => ADOrder::One, _ => ADOrder::Two });
     f
 }
@@ -387,6 +396,17 @@ pub fn roundtrip(seed: u64, n: usize, out: &str) {
                 pickle_ev(&mut o, &key, "UnionCal", &u, p_union, cpy::union_renew, |x, on| cpy::union_state(x, on), |a, b| a == b);
                 let nc = NamedCal::try_new(*r.pick(&["tgt", "nyc,ldn|fed", "bus|all"])).unwrap();
                 pickle_ev(&mut o, &key, "NamedCal", &nc, p_named, cpy::named_renew, |x, on| cpy::named_state(x, on), |a, b| a == b);
+            }
+            if i == 0 {
+                // calendars of realistic SIZE: the built-in holiday tables (thousands of entries, pickled states of 40 - 120 kB),
+                // alone and as members / settlement calendars of a union
+                for nm in ["tgt", "nyc", "tyo"] {
+                    let big = rateslib::calendars::get_calendar_by_name(nm).unwrap();
+                    pickle_ev(&mut o, &format!("{}/big/{}", key, nm), "Cal", &big, p_cal, cpy::cal_renew, |x, on| cpy::cal_state(x, on), |a, b| a == b);
+                    let other = rateslib::calendars::get_calendar_by_name("fed").unwrap();
+                    let u = UnionCal::new(vec![big], Some(vec![other]));
+                    pickle_ev(&mut o, &format!("{}/big/{}", key, nm), "UnionCal", &u, p_union, cpy::union_renew, |x, on| cpy::union_state(x, on), |a, b| a == b);
+                }
             }
         }
         rt_type!(o, key, "Dual", rand_dual(&mut r), p_dual, Tagged::Dual, |t| if let Tagged::Dual(x) = t { Some(x) } else { None });
